@@ -24,6 +24,9 @@ def gen(ctx):
     for n, w in enumerate(sk):
         for r in modes(n):
             cs.add('rsp', w, r, 1024, 'all')
+    for w in H.token_sequences(H.spec_tokens('MC_StatusLine'), 4 if ctx.thorough else 3):   # the bounded domain of MC_StatusLine
+        for r in (0, 1):
+            cs.add('rsp', w, r, 1024, 'all')
     n_skel = len(cs)
     # every status value 000..999 (three digits) and a few 1-, 2- and 4-digit ones, strict and relaxed
     for code in range(0, 1000):
@@ -57,7 +60,7 @@ def gen(ctx):
             w = H.random_mutant(rnd, w, 2)
         lim = rnd.choice((4096, 65536, len(w), len(w) + 1, len(w) - 1, 64))
         cs.add('rsp', w, rnd.choice((0, 1)), max(1, lim), H.random_cuts(rnd, len(w), 8))
-    return cs, {'skeleton': n_skel, 'status_values': n_codes, 'limit_lattice': n_lim, 'byte_mutations': n_mut,
+    return cs, {'skeleton_and_mc_token_domain': n_skel, 'status_values': n_codes, 'limit_lattice': n_lim, 'byte_mutations': n_mut,
                 'random_and_large': len(cs) - n_skel - n_codes - n_lim - n_mut, 'skeleton_k': k}
 
 
@@ -112,7 +115,7 @@ def run(ctx):
     for o in (outs[0], outs[len(outs) // 3], outs[-1]):
         ctx.sample({'input': bytes(o['in'])[:100].decode('latin-1'), 'relaxed': o['relaxed'], 'limit': o['limit'], 'runs': len(o['runs']),
                     'one_shot': H.tuple_text(o['tuples'][o['one']])})
-    ctx.cov['rule'] = ('status-line skeleton (magic, minor, delimiter, status, delimiter, reason, line end, header block) with at most k deviating slots; '
+    ctx.cov['rule'] = ('status-line skeleton (magic, minor, delimiter, status, delimiter, reason, line end, header block) with at most k deviating slots; every token sequence of the MC_StatusLine domain up to 3 (thorough: 4) tokens; '
                        'every status value 000..999; reply_header_max_size lattice; single-byte mutations of valid heads; seeded random mutants: each '
                        'delivered at every 2-way split point and one byte at a time; large heads at 8 random 2..5-way segmentations. '
                        'evaluations = parser runs (one-shot + segmented). non-trivial distinct case = distinct (input, mode, limit) whose one-shot outcome is a decision.')
